@@ -130,7 +130,8 @@ class Fx:
 
     def succ(self, n, var, facts, env=()):
         if n.kind == "test":
-            v = tv(self.test(n), var, self._facts(facts, env))
+            t = self.test(n)
+            v = bool(t.value) if isinstance(t, ast.Constant) else tv(t, var, self._facts(facts, env))
             if v is True:
                 return [(m, l) for m, l in n.succ if l != "false"]
             if v is False:
